@@ -151,7 +151,6 @@ class Model(Object):
         return self._solver
 
     @solver.setter
-    @resettable
     def solver(self, value: Union[str, ModuleType]) -> None:
         """Set the attached solver instance.
 
@@ -171,6 +170,11 @@ class Model(Object):
         # Do nothing if the solver did not change
         if self.problem == interface:
             return
+        context = get_context(self)
+        if context:
+            # Restore the very same solver object on exit: undo operations that
+            # were recorded before the switch refer to its variables and constraints.
+            context(partial(setattr, self, "_solver", self._solver))
         self._solver = interface.Model.clone(self._solver)
 
     @property
